@@ -85,6 +85,12 @@ class Interp:
             scenario.get('run_seed', 0) & 0xffff, self.trace)
         import desper.model as dmodel
         self.dmodel = dmodel
+        # the delimiter of composite keys is a class attribute of the maps
+        # (a program may set another one once and for all)
+        self.S = self.cfg.get('split', '/')
+        d.ResourceMap.split_char = self.S
+        if self.S != '/':
+            self.probes['other_split_char'] += 1
         _counter[0] += 1
         self.root_dir = os.path.join(f'{SCRATCH}-{os.getpid()}',
                                      str(_counter[0]))
@@ -108,6 +114,8 @@ class Interp:
                 os.makedirs(os.path.dirname(p), exist_ok=True)
                 open(p, 'w').close()
         self.listings = []
+        self.beneath = {}           # (map, name) -> handles nested beneath
+        self.keep = []
         self.created = []           # records of factory calls
         self.flags = set()
         it = self
@@ -137,6 +145,7 @@ class Interp:
         self.map = d.ResourceMap()
         self.pre = {}               # key -> object
         for key, kind in self.cfg.get('pre', []):
+            key = key.replace('/', self.S)
             o = PreHandle(key) if kind == 'h' else d.ResourceMap()
             self.map[key] = o
             self.pre[key] = o
@@ -155,9 +164,17 @@ class Interp:
         self.rule_objs = []
         for i, r in enumerate(self.cfg['rules']):
             factory = self.make_factory(i)
-            self.pop.add_rule(r['path'], factory, *r.get('args', []),
-                              file_exts=r.get('exts', []),
-                              **r.get('kwargs', {}))
+            try:
+                self.pop.add_rule(r['path'], factory, *r.get('args', []),
+                                  file_exts=r.get('exts', []),
+                                  **r.get('kwargs', {}))
+            except Exception as e:
+                e.__traceback__ = None
+                self.init_violation = Violation(
+                    'C16', 'factory_args', f'add_rule refused the extra '
+                    f'arguments {r.get("args")} {r.get("kwargs")} of a rule: '
+                    f'{type(e).__name__}: {e}')
+                break
 
     def make_factory(self, i):
         it = self
@@ -186,10 +203,10 @@ class Interp:
     # ---- expectation helpers
     def key_of(self, path, trim):
         rel = os.path.relpath(path, self.root_dir)
-        key = os.path.normpath(rel).replace(os.sep, '/')
+        rel = os.path.normpath(rel)
         if trim and os.path.isfile(path):
-            key = os.path.splitext(key)[0]
-        return key
+            rel = os.path.splitext(rel)[0]
+        return rel.replace(os.sep, self.S)
 
     def on_create(self, h):
         """Called from inside the factory: observe the map right now."""
@@ -205,9 +222,19 @@ class Interp:
         return (not exts) or os.path.splitext(path)[1] in exts
 
     # ---- operations
+    init_violation = None
+
     def exec_op(self, op):
+        if self.init_violation is not None:
+            raise self.init_violation
         self.stats['ops'] += 1
         self.trace.add('op', op[0], json.dumps(op[1], sort_keys=True))
+        if op[0] == 'repeat':
+            # the same population again and again (hot reloading)
+            for _ in range(op[2]):
+                self.exec_op(['populate', op[1]])
+            self.probes['populated>64_times'] += op[2] > 64
+            return
         if op[0] == 'retree':
             # the tree changes between two populations: a file is replaced
             # by a directory (of the same name, or of its trimmed name) that
@@ -291,7 +318,7 @@ class Interp:
         def walk(m, prefix):
             for name, sub in m.maps.items():
                 out[prefix + name] = sub
-                walk(sub, prefix + name + '/')
+                walk(sub, prefix + name + self.S)
             for name in m.handles:
                 out[prefix + name] = m.handles[name]
         walk(self.map, '')
@@ -339,14 +366,14 @@ class Interp:
                     continue
                 if os.path.isdir(p):
                     # the directory and the directories leading to it
-                    parts = key.split('/')
+                    parts = key.split(self.S)
                     for k in range(1, len(parts) + 1):
-                        allowed_dirs.add('/'.join(parts[:k]))
+                        allowed_dirs.add(self.S.join(parts[:k]))
                 elif os.path.isfile(p) and self.accepted(r, p):
                     required_files.setdefault(key, []).append((p, i))
-                    parts = key.split('/')
+                    parts = key.split(self.S)
                     for k in range(1, len(parts)):
-                        required_dirs.add('/'.join(parts[:k]))
+                        required_dirs.add(self.S.join(parts[:k]))
         new = self.created[first:]
         # (2) factory arguments, one handle per accepted file occurrence
         want_calls = Counter((p, i) for lst in required_files.values()
@@ -404,8 +431,8 @@ class Interp:
             if (key in required_dirs or key in allowed_dirs) and isinstance(
                     after.get(key), RM):
                 continue            # the name denotes a directory now
-            parts = key.split('/')
-            if any('/'.join(parts[:k]) in required_files
+            parts = key.split(self.S)
+            if any(self.S.join(parts[:k]) in required_files
                    for k in range(1, len(parts))):
                 continue
             self.fail('missing_key', f'pre-existing {key!r} disappeared')
@@ -414,20 +441,30 @@ class Interp:
             old = c['old']
             if old is None or isinstance(old, RM):
                 continue
-            name = c['key'].split('/')[-1]
+            name = c['key'].split(self.S)[-1]
             parent = c['h'].parent if c['h'].parent is not None else None
             vis = after.get(c['key'])
             holder = getattr(vis, 'parent', None)
             if holder is None:
                 continue
             layers = holder.handles.maps
+            under = self.beneath.setdefault((id(holder), name), [])
             if c['nest']:
+                under.append(old)
+                lost = [o for o in under if not any(
+                    layer.get(name) is o for layer in layers[1:])]
+                if lost and not any(lost[0] is o for o in [old]):
+                    self.fail('conflict_nest', f'{c["key"]!r}: with '
+                              f'nest_on_conflict {len(lost)} of the '
+                              f'{len(under)} older handles nested beneath '
+                              f'this key are no longer retrievable')
                 if not any(layer.get(name) is old for layer in layers[1:]):
                     self.fail('conflict_nest', f'{c["key"]!r}: with '
                               f'nest_on_conflict the older handle is no '
                               f'longer retrievable beneath the new one')
                 self.probes['nested_conflict_checked'] += 1
             else:
+                del under[:]
                 if layers[0].get(name) is old or vis is old:
                     self.fail('conflict_replace', f'{c["key"]!r}: without '
                               f'nest_on_conflict the older handle is still '
@@ -438,7 +475,7 @@ class Interp:
             elif old.__class__ is self.RecHandle and c['call'] > 1:
                 self.probes['conflict.repeat'] += 1
             self.flags.add('conflict')
-        if any('/' in k for k in required_files):
+        if any(self.S in k for k in required_files):
             self.flags.add('nested_dir')
         if any(os.path.isdir(os.path.join(self.root_dir, rel))
                and not os.listdir(os.path.join(self.root_dir, rel))
@@ -454,6 +491,7 @@ class Interp:
                     or self.probes['rule_missing'])
 
     def cleanup(self):
+        self.desper.ResourceMap.split_char = '/'
         shutil.rmtree(self.root_dir, ignore_errors=True)
         d = os.path.dirname(self.root_dir)
         for _ in range(2 if self.cfg.get('odd_root') else 1):
@@ -554,6 +592,11 @@ def generate(prop, run_seed, tier='quick', tolerate=frozenset()):
                                 path + '/../' + path.split('/')[-1]])
         args = crng.choice([[], [], [1], ['x', 2]])
         kwargs = crng.choice([{}, {}, {'k': 1}, {'mode': 'r', 'n': 0}])
+        if crng.random() < .04:
+            # keyword names a populator might use for itself
+            kwargs = crng.choice([{'handle_type': 'sprite'},
+                                  {'relative_path': 'x', 'k': 2},
+                                  {'root': 1, 'rule': 2}])
         rules.append({'path': path, 'exts': exts, 'args': args,
                       'kwargs': kwargs})
     pre = []
@@ -571,6 +614,8 @@ def generate(prop, run_seed, tier='quick', tolerate=frozenset()):
            'falsy_handles': crng.choice([None, None, None, 'len', 'bool']),
            'ctor': {'nest': crng.choice([None, True, False]),
                     'trim': crng.choice([None, True, False])}}
+    if crng.random() < .06:
+        cfg['split'] = crng.choice([':', '|', '>'])
     ops = []
     for _ in range(crng.choice([1, 1, 2, 3, 4])):
         opts = {}
@@ -581,6 +626,8 @@ def generate(prop, run_seed, tier='quick', tolerate=frozenset()):
         if crng.random() < .3:
             opts['root'] = True
         ops.append(['populate', opts])
+    if crng.random() < .004 and len(tree) <= 8:
+        ops.append(['repeat', {'nest': True}, crng.randint(65, 72)])
     if files and crng.random() < .15:
         # a file turns into a directory between two populations; its key
         # preferably carries handles already (pre-existing and/or nested)
